@@ -89,6 +89,8 @@ inductive ArgsOp where
   | slice (lo hi : Option Int)
   /-- `str(args)`. -/
   | str
+  /-- `args.extend(args[lo:hi])`: extend by a `TexArgs` object, here the list's own slice. -/
+  | extendSlice (lo hi : Option Int)
   deriving Repr, Inhabited
 
 inductive ArgsOut where
@@ -310,6 +312,15 @@ def slice (st : ArgsSt) (lo hi : Option Int) : ArgsSt × ArgsOut :=
   | (st', .none) => (st, .sliceResult st')
   | (_, out) => (st, out)
 
+/-- `args.extend(args[lo:hi])`: the slice is a new `TexArgs`; `extend` iterates over it as
+over any list, i.e. over its list elements in list order (`.all` of the source plays no part),
+and appends each – the same objects. (`args.extend(args)` itself, without the copy, does not
+terminate in the implementation: the loop runs over the list it is growing.) -/
+def extendSlice (st : ArgsSt) (lo hi : Option Int) : ArgsSt × ArgsOut :=
+  match construct ((pySlice st.lst lo hi).map .grp) st.next with
+  | (src, .none) => extend st (src.lst.map .grp)
+  | (_, out) => (st, out)
+
 /-- `str(args)`: `''.join(map(str, self))`. -/
 def str (st : ArgsSt) : ArgsSt × ArgsOut := (st, .string (serL (st.lst.map Obj.e)))
 
@@ -324,6 +335,7 @@ def step (st : ArgsSt) : ArgsOp → ArgsSt × ArgsOut
   | .getItem i => getItem st i
   | .slice lo hi => slice st lo hi
   | .str => str st
+  | .extendSlice lo hi => extendSlice st lo hi
 
 /-- Run a history from a state; outputs in order. A Python caller that catches the
 exceptions sees exactly this. -/
@@ -332,6 +344,42 @@ def run (st : ArgsSt) : List ArgsOp → ArgsSt × List ArgsOut
   | op :: ops =>
     let r := step st op
     let rs := run r.1 ops
+    (rs.1, r.2 :: rs.2)
+
+/-! ## Two argument lists (of two commands) in one history -/
+
+/-- Operations of a history over two `TexArgs`, `target` and `other`: an operation on one of
+them, or extending one by the other (`target.extend(other)`; with `other := true` the roles
+are swapped). -/
+inductive PairOp where
+  | on (other : Bool) (op : ArgsOp)
+  | extendBy (other : Bool)
+  deriving Repr, Inhabited
+
+structure PairSt where
+  tgt : ArgsSt
+  oth : ArgsSt
+  deriving Repr, Inhabited
+
+/-- Object allocation is global: before a list acts, its counter is brought up to date with
+the other's, so that groups made by either list are distinct objects. -/
+def syncNext (a b : ArgsSt) : ArgsSt := ⟨a.lst, a.all, max a.next b.next⟩
+
+/-- `a.extend(b)` for a `TexArgs` `b`: `for arg in b: a.append(arg)` – the list elements of
+`b` in list order, the same objects. -/
+def extendBy (a b : ArgsSt) : ArgsSt × ArgsOut := extend (syncNext a b) (b.lst.map .grp)
+
+def stepPair (s : PairSt) : PairOp → PairSt × ArgsOut
+  | .on false op => let r := step (syncNext s.tgt s.oth) op; (⟨r.1, s.oth⟩, r.2)
+  | .on true op => let r := step (syncNext s.oth s.tgt) op; (⟨s.tgt, r.1⟩, r.2)
+  | .extendBy false => let r := extendBy s.tgt s.oth; (⟨r.1, s.oth⟩, r.2)
+  | .extendBy true => let r := extendBy s.oth s.tgt; (⟨s.tgt, r.1⟩, r.2)
+
+def runPair (s : PairSt) : List PairOp → PairSt × List ArgsOut
+  | [] => (s, [])
+  | op :: ops =>
+    let r := stepPair s op
+    let rs := runPair r.1 ops
     (rs.1, r.2 :: rs.2)
 
 /-- The object `o` after the object with identity `id` got the value `e'`. -/
